@@ -315,6 +315,8 @@ RULE = ("scan_orfs: windows of codon-structured random genomes (start/stop codon
 
 PENDING = []        # oracle failures inside the class of a recorded finding: decided after the correspondence
 PENDING_BASE = []   # alias of the list of cases, to know the index of the current case
+GAP_SPEC = []       # (index of the case, case, flat case of run id 12, shown output): Gallina specification of C15_gaps
+GAP_CLASS = {1: "area_misses_enclosing_gene", 2: "origin_gene_padding_window"}
 
 
 def enc_chars(text):
@@ -359,6 +361,10 @@ def run_find_all(chk, gen, all_orfs, starts, stops):
             else:
                 chk.violation("counterexample", f"find_all_orfs returns a feature violating the property: {bad}", replay)
         nontrivial = len(features) > 0
+        # the Gallina specification (Model.spec_gaps: shared positions with every gene, searched part, translation;
+        # guard and class of C15_gaps) on this output
+        GAP_SPEC.append((len(PENDING_BASE), case, [PROP, 12] + flat[2:] + out[1:],
+                         [f"{f.location} {f.get_name()} {f.translation}" for f in features]))
         chk.count(f"find_all_features_{min(len(features), 3)}{'+' if len(features) >= 3 else ''}")
         if any(len(f.location.parts) > 1 for f in features):
             chk.count("find_all_wrapped_feature")
@@ -381,6 +387,7 @@ def run(chk):
     cases, impl_outs = [], []
     spec_cases, spec_of = [], []
     del PENDING[:]
+    del GAP_SPEC[:]
     global PENDING_BASE  # pylint: disable=global-statement
     PENDING_BASE = cases
     listed = set(f["class"] for f in common.load_known_findings("C15") if f["status"] == "known")
@@ -465,9 +472,42 @@ def run(chk):
             continue
         chk.violation("counterexample", f"find_all_orfs returns a feature violating the property: {bad}", replay)
     chk.extra["oracle_failures_in_known_classes"] = in_class
+    # C15_gaps / C15_translation: Model.spec_gaps on every find_all_orfs output of the implementation.  The theorem
+    # C15_gaps_spec_ok says the model's output satisfies it whenever the guard holds, so a failure under the guard is a
+    # violation; a failure outside the guard is attributed to the class the Gallina function gaps_class names.
+    gap_verdicts = common.run_driver([g[2] for g in GAP_SPEC])
+    gap_stats = {"evaluated": 0, "guard_holds": 0, "class_area_misses_enclosing_gene": 0,
+                 "class_origin_gene_padding_window": 0, "spec_failures_in_known_classes": {}}
+    for verdict, (idx, case, spec_flat, shown) in zip(gap_verdicts, GAP_SPEC):
+        if len(verdict) != 4:
+            chk.violation("broken-correspondence", "the gap specification could not be evaluated on an implementation output",
+                          {"theorem_or_correspondence": "spec_gaps", "input": case, "flat": spec_flat, "verdict": verdict})
+            break
+        spec_ok, guard, cls, well_formed = verdict
+        gap_stats["evaluated"] += 1
+        gap_stats["guard_holds"] += 1 if guard else 0
+        if cls in GAP_CLASS:
+            gap_stats["class_" + GAP_CLASS[cls]] += 1
+        if spec_ok:
+            continue
+        replay = {"theorem_or_correspondence": "C15_gaps / C15_translation (spec_gaps)", "input": case, "flat": cases[idx],
+                  "spec_flat": spec_flat, "implementation": shown, "model": model_outs[idx],
+                  "spec_verdict_on_implementation_output": {"spec_ok": spec_ok, "guard": guard, "class": cls,
+                                                            "well_formed": well_formed}}
+        if not guard and cls in GAP_CLASS and GAP_CLASS[cls] in listed and impl_outs[idx] == model_outs[idx]:
+            # recorded finding: in the class, class listed, implementation == faithful model
+            known = gap_stats["spec_failures_in_known_classes"]
+            known[GAP_CLASS[cls]] = known.get(GAP_CLASS[cls], 0) + 1
+            continue
+        chk.violation("counterexample", "find_all_orfs: a returned feature shares more than max_overlap positions with a "
+                      "gene, leaves the searched area, or carries a translation that is not the protein of its location"
+                      + ("" if guard else f" (outside the guard of C15_gaps, class {GAP_CLASS.get(cls, 'none')})"), replay)
+    chk.extra["spec_gaps"] = gap_stats
     chk.extra["spec_scan_evaluations"] = len(verdicts)
     chk.extra["spec_failures_in_known_class_orf_exact_minimum"] = suppressed
-    chk.crosscheck_vm(cases + spec_cases[:len(spec_cases) // 20], model_outs + verdicts[:len(spec_cases) // 20])
+    gap_flats = [g[2] for g in GAP_SPEC]
+    chk.crosscheck_vm(cases + spec_cases[:len(spec_cases) // 20] + gap_flats[:len(gap_flats) // 10],
+                      model_outs + verdicts[:len(spec_cases) // 20] + gap_verdicts[:len(gap_flats) // 10])
     known_findings(chk, all_orfs)
     return chk.finish(RULE, trusted_extra=["Biopython Seq/extract/translate used by the implementation-side oracles"])
 
@@ -489,10 +529,20 @@ def known_findings(chk, all_orfs):
             record, area = build_record(case)
             features = all_orfs.find_all_orfs(record, area, min_length=case["min_length"], max_overlap=case["max_overlap"])
             bad = find_all_oracle(case, record, area, features, set(all_orfs.START_CODONS), set(all_orfs.STOP_CODONS))
+            # the Gallina specification on the implementation's output for the witness: fails, outside the guard, in the class
+            flat = [PROP, 12] + enc_chars(case["genome"]) + [len(record.get_cds_features())]
+            for gene in record.get_cds_features():
+                flat += enc_pyloc(gene.location)
+            flat += [1] + enc_pyloc(area.location) + [case["min_length"], case["max_overlap"], len(features)]
+            for feature in features:
+                flat += enc_pyloc(feature.location) + enc_chars(feature.get_name()) + enc_chars(feature.translation)
+            verdict = common.run_driver([flat])[0]
+            wanted = {"area_misses_enclosing_gene": 1, "origin_gene_padding_window": 2}[finding["class"]]
+            in_class = len(verdict) == 4 and verdict[0] == 0 and verdict[1] == 0 and verdict[2] == wanted
             if finding["class"] == "area_misses_enclosing_gene" and bad and bad.startswith("OVERLAP ") \
-                    and helper_misses_gene(record, area):
+                    and helper_misses_gene(record, area) and in_class:
                 chk.known(finding["what_fails"])
-            if finding["class"] == "origin_gene_padding_window" and bad and bad.startswith("OVERLAP-ORIGIN"):
+            if finding["class"] == "origin_gene_padding_window" and bad and bad.startswith("OVERLAP-ORIGIN") and in_class:
                 chk.known(finding["what_fails"])
 
 
